@@ -194,7 +194,9 @@ class Program:
         r = rng.random()
         self.n = rng.randint(1, 12) if r < 0.8 else rng.randint(13, 60)
         if tier == "thorough" and rng.random() < 0.2:
-            self.n = rng.randint(60, 150)  # thorough tier: some very long histories
+            self.n = rng.randint(60, 300)  # thorough tier: some very long histories
+        elif tier != "thorough" and rng.random() < 0.008:
+            self.n = rng.randint(110, 280)  # quick tier: the occasional very long script (more than 100 / 256 steps)
         self.p_fault = rng.choice([0.0, 0.1, 0.17, 0.17, 0.3])
 
     def source(self, i, sess):
